@@ -21,6 +21,23 @@ def reference(spec):
 
     nxt, rew, prob = RP.forest_tables(spec["problem"])
     kw = spec["kw"]
+    if spec["solver"] == "pi":
+        # policy iteration: state after iteration k = (evaluation of policy k-1, improved policy k)
+        S_ = nxt.shape[0]
+        pol0 = B.q_values(nxt, rew, prob, kw["gamma"], np.zeros(S_)).argmax(1)
+        rp = B.ref_pi(nxt, rew, prob, kw["gamma"], kw["epsilon"], kw.get("convergence_test", "span"), pol0, np.zeros(S_), 60, kw.get("max_eval_iter", 100), False)
+        if rp["border"] or not rp["converged"]:
+            raise RuntimeError("policy-iteration reference is borderline / does not converge; choose other parameters")
+        states = [dict(values=np.zeros(S_), gain=0.0, policy=pol0)]
+        for k in range(1, rp["n"] + 1):
+            states.append(dict(values=rp["vals"][k - 1], gain=0.0, policy=rp["pols"][k]))
+        # after convergence every further iteration re-evaluates the stable policy
+        V = rp["vals"][-1]
+        for _ in range(4):
+            V, _, _, _ = B.ref_eval(nxt, rew, prob, kw["gamma"], B.threshold(kw["epsilon"], kw["gamma"]), kw.get("convergence_test", "span"), rp["pols"][-1], V, kw.get("max_eval_iter", 100))
+            states.append(dict(values=V, gain=0.0, policy=rp["pols"][-1]))
+        _REF[key] = (states, rp["n"], None)
+        return _REF[key]
     case = dict(tables=(nxt, rew, prob), kind=spec["solver"], eps=kw["epsilon"], gamma=kw.get("gamma", 1.0), test=kw.get("convergence_test", "span"), period=kw.get("period"), init="zero")
     layout = None
     if spec["solver"] == "savi":
@@ -139,6 +156,12 @@ def judge(dst, spec, C, at_least=False):
             out["outcome"] = "wrong-gain"
             out["fail"] = "restored gain %.12g, iteration %d had %.12g" % (st["gain"], it, ref["gain"])
             return out
+        if spec["solver"] == "pi":
+            pol = None if st["policy"] is None else np.asarray(st["policy"]).reshape(len(ref["values"]), -1)[:, 0].astype(int)
+            if pol is None or not np.array_equal(pol, ref["policy"]):
+                out["outcome"] = "wrong-policy"
+                out["fail"] = "checkpoint labelled iteration %d does not hold the policy of iteration %d (restored %s, the solver held %s)" % (it, it, None if pol is None else pol.tolist(), ref["policy"].tolist())
+                return out
         if spec["solver"] == "pvi":
             H, idx = history_slots(states, it, spec["kw"]["period"])
             if st["history_index"] != idx or st["value_history"] is None or np.abs(st["value_history"] - H).max() > 1e-10 * (1 + np.abs(H).max()):
